@@ -86,7 +86,8 @@ def opkind(op):
 
 
 def key_fn(case, obs, step, clause):
-    return "%s/%s" % (CLAUSE.get(clause, clause), opkind(case["ops"][step]))
+    base = "%s/%s" % (CLAUSE.get(clause, clause), opkind(case["ops"][step]))
+    return "%s/%s" % (case["name"], base) if case.get("name") else base
 
 
 def describe(case, obs, step, clause):
@@ -323,6 +324,20 @@ def gen_case(rnd, ctx, maxmut):
         ctx.count("registration:lazy-default")
     if deferred:
         add(["Reg"])
+        if (len(items) >= 2 and len(first[0]) == 1 and first[0][0] in (3, 5)        # (Dict links: corpus trigger, a finding)
+                and not any(f in (3, 4, 5) for it in items[1:] for f in it[0]) and rnd.random() < 0.5):
+            # deferred registration, then the first (container) link's default WITH content is created by the first
+            # read: the notification old = Uninitialized must hook the items
+            lazy = True
+            f0 = first[0][0]
+            vs = [fresh() for _ in range(rnd.randint(1, 2))]
+            its = [[key, v] for key, v in zip(["a", "b"], vs)] if f0 == 4 else vs
+            probes()
+            sh.new_cont(0, f0, [list(a) for a in its] if f0 == 4 else list(its))
+            add(["TouchItems", 0, f0, its])
+            refresh()
+            probes()
+            ctx.count("registration:deferred-then-lazy-default")
     # a path along the name (most of the time), so that the walk reaches the final attribute
     if not lazy and rnd.random() < 0.75:
         frontier = [0]
@@ -412,6 +427,13 @@ def corpus():
         ops += [["Unreg"]] + [["Probe", o] for o in range(11)] + [["SetRef", 0, 1, 11], ["Probe", 11]]
         cs.append(dict(npool=18, root=0, items=text_items, legacy=legacy_text(text_items), graphs=l2g(text_items),
                        ops=ops))
+    # finding: a DEFERRED registration through a Dict link whose default (a _name_default method) has content and is
+    # created by a later read: ListenerItem._register_dict installs its re-hooking handlers with dispatch=self.dispatch,
+    # whose wrapper drops notifications with old = Uninitialized, so the values of the new dict are never hooked
+    it = [[[4], "."], [[0], "."]]
+    cs.append(dict(npool=18, root=0, items=it, legacy=legacy_text(it), graphs=l2g(it), deferred=True,
+                   name="deferred-lazy-dict-default",
+                   ops=[["Reg"], ["Probe", 1], ["TouchItems", 0, 4, [["a", 1]]], ["Probe", 1]]))
     return cs
 
 
